@@ -275,7 +275,7 @@ def it_next(M, fr, it):
         if k == 'it:peekable':
             if it.f[1] is not None:
                 p = it.f[1]; it.f[1] = None
-                return (True, p[1]) if p[0] else (False, None)
+                return (True, p[2].v if len(p) > 2 else p[1]) if p[0] else (False, None)
             return it_next(M, fr, it.f[0])
         if k == 'it:flat_map':
             while True:
@@ -353,8 +353,8 @@ def _iter_peekable(M, fr, n, a): return Agg('it:peekable', [to_iter(M, fr, a[0])
 def _peek(M, fr, n, a):
     it = D(M, a[0])
     if it.f[1] is None:
-        okk, x = it_next(M, fr, it.f[0]); it.f[1] = [okk, x]
-    return some(Ref(Cell(it.f[1]), (('i', 1),))) if it.f[1][0] else none()
+        okk, x = it_next(M, fr, it.f[0]); it.f[1] = [okk, x, Cell(x)]
+    return some(Ref(it.f[1][2])) if it.f[1][0] else none()
 @reg(r'^<.* as std::iter::Iterator>::collect$|^<.* as std::iter::FromIterator<.*>>::from_iter$')
 def _collect(M, fr, n, a):
     callee = M.cur_callee
@@ -2456,3 +2456,39 @@ def _slice_sort(M, fr, n, a):
     else: keyed = [(_sort_key(M, x), i, x) for i, x in enumerate(v.items)]
     keyed.sort(key=lambda t: (t[0], t[1]))          # stable; for the unstable sorts equal keys are indistinguishable values of these types
     v.items = [x for _, _, x in keyed]; return UNIT
+
+# double-ended consumption of any iterator value: its remaining elements are materialised once (the iterator object then wraps the list)
+def _materialise(M, fr, itref):
+    it = itref
+    while isinstance(it, Ref): it = M.deref(it)
+    if isinstance(it, IterV): return it
+    if not isinstance(it, Agg): raise Unsupported('double-ended use of %r' % (it,))
+    if it.name == 'it:chain' and isinstance(it.f[0], IterV) and isinstance(it.f[1], IterV) and it.f[1].pos >= len(it.f[1].items): return it.f[0]
+    if it.name == 'it:peekable' and isinstance(it.f[0], IterV) and it.f[1] is None: return it.f[0]
+    peeked = []
+    if it.name == 'it:peekable' and it.f[1] is not None:
+        pk = it.f[1]            # [got one, value]: a value already peeked is the next element; a peeked end means the iterator is exhausted
+        peeked = [pk[2].v if len(pk) > 2 else pk[1]] if pk[0] else None
+        it.f[1] = None
+    xs = [] if peeked is None else peeked + drain_all(M, fr, it)
+    base = IterV(xs)
+    if it.name == 'it:peekable': it.f = [base, None]          # still peekable, now over the materialised rest
+    else: it.name = 'it:chain'; it.f = [base, IterV([])]
+    return base
+@reg(r'^<.* as std::iter::DoubleEndedIterator>::(next_back|nth_back|rfind)$')
+def _next_back(M, fr, n, a):
+    base = _materialise(M, fr, a[0]); op = n.rsplit('::', 1)[1]
+    if op == 'next_back':
+        if base.pos < len(base.items): return some(base.items.pop())
+        return none()
+    if op == 'nth_back':
+        k = simp(a[1])
+        if is_sym(k): raise Unsupported('symbolic nth_back')
+        for _ in range(k):
+            if base.pos < len(base.items): base.items.pop()
+        if base.pos < len(base.items): return some(base.items.pop())
+        return none()
+    while base.pos < len(base.items):
+        x = base.items.pop()
+        if M.branch(M.call_closure(fr, a[1], [Ref(Cell(x))])): return some(x)
+    return none()
